@@ -14,6 +14,7 @@ struct RunOpts {
     int stop_after_op = -1;      // fault runs: every rank stops after this op (no epilogue)
     bool trace = false;
     bool layout_strict = true;   // C03 layout rules at checkpoints
+    bool check_hints = false;    // C10: effective hints reported by ncmpi_inq_file_info vs the settings and the layout in the file
     long long alloc_limit = 0;   // 0 = none; else flag single allocations above (C19)
 };
 struct OpResult { int rc = 0; bool executed = false; std::vector<int> statuses; };
